@@ -9,6 +9,7 @@ import os
 import sys
 
 from pyasn1 import error
+from pyasn1.compat.octets import null
 from pyasn1.type import univ
 
 _PY2 = sys.version_info < (3,)
@@ -244,14 +245,22 @@ def readFromStream(substrate, size=-1, context=None):
             raise error.EndOfStreamError(context=context)
 
         elif len(received) < size:
-            # a short read: either the rest is yet to come or the stream
-            # has ended in the middle of what is being read
-            more = substrate.read(1)
+            # a short read: the stream may hand out less than asked for at
+            # a time, the rest may be yet to come, or the stream has ended
+            # in the middle of what is being read
+            more = received
 
-            if more is not None and not more:
+            while more and len(received) < size:
+                more = substrate.read(size - len(received))
+                received += more or null
+
+            if len(received) == size:
+                break
+
+            if more is not None:
                 raise error.EndOfStreamError(context=context)
 
-            substrate.seek(-len(received) - len(more or ''), os.SEEK_CUR)
+            substrate.seek(-len(received), os.SEEK_CUR)
 
             # behave like a non-blocking stream
             yield error.SubstrateUnderrunError(context=context)
